@@ -365,12 +365,16 @@ pub fn run(seed: u64, tier: &str, shard: u64, nshards: u64) {
     let g = grid();
     // exhaustive singles / pairs / triples on the grid, split over shards by the first index
     for (i, a) in g.iter().enumerate() {
-        if (i as u64) % nshards != shard {
+        // the interpreter tier checks pairs of the grid only (64^3 triples would take hours under Miri)
+        if (i as u64) % nshards != shard % nshards {
             continue;
         }
         check_single(a);
         for bb in g.iter() {
             check_pair(a, bb);
+            if tier == "miri" {
+                continue;
+            }
             for c in g.iter() {
                 check_triple(a, bb, c);
             }
@@ -379,7 +383,7 @@ pub fn run(seed: u64, tier: &str, shard: u64, nshards: u64) {
     report::count("grid_values", g.len() as i64);
     report::count("grid_pairs_checked", 0);
     // random values
-    let n = if tier == "thorough" { 400000 } else { 20000 };
+    let n = if tier == "thorough" { 400000 } else if tier == "miri" { 150 } else { 20000 };
     let mut r = Rng::new(seed ^ shard.wrapping_mul(0xC19C_19C1_9C19_C19C));
     for _ in 0..n {
         let a = random_value(&mut r);
@@ -389,7 +393,7 @@ pub fn run(seed: u64, tier: &str, shard: u64, nshards: u64) {
         check_pair(&a, &bb);
         check_triple(&a, &bb, &c);
     }
-    let m = if tier == "thorough" { 400 } else { 25 };
+    let m = if tier == "thorough" { 400 } else if tier == "miri" { 0 } else { 25 }; // the SQL leg needs files (O_DIRECT): not under Miri
     for _ in 0..m {
         report::arm("C19 sql leg", 120);
         sql_leg(&mut r);
